@@ -263,6 +263,42 @@ func c08(r *hx.Run, onlyCrash bool) {
 			valCase(r, base, &validate.Options{TdQuoteBodyOptions: validate.TdQuoteBodyOptions{MinimumTeeTcbSvn: m}}, onlyCrash, "svn:tee")
 		}
 	}
+	// component-wise, not lexicographic / not "any": two components moved in opposite or equal directions
+	for i := 0; i < 16; i++ {
+		for j := 0; j < 16; j++ {
+			if i == j || (!thorough && (i*16+j)%5 != 0 && !(i < 3 && j < 3)) {
+				continue
+			}
+			for _, dd := range [][2]int{{-1, 1}, {-1, -1}, {1, 1}} {
+				m := append([]byte{}, base.TdQuoteBody.TeeTcbSvn...)
+				m[i] = byte(int(m[i]) + dd[0])
+				m[j] = byte(int(m[j]) + dd[1])
+				valCase(r, base, &validate.Options{TdQuoteBodyOptions: validate.TdQuoteBodyOptions{MinimumTeeTcbSvn: m}}, onlyCrash, "svn:tee2")
+			}
+		}
+	}
+	// every component independently below / equal / above / arbitrary
+	nvec := 200
+	if thorough {
+		nvec = 5000
+	}
+	for k := 0; k < nvec; k++ {
+		m := append([]byte{}, base.TdQuoteBody.TeeTcbSvn...)
+		pAbove := rng.IntN(4) // 0: never above (accepting vectors), else sparse
+		for i := range m {
+			switch c := rng.IntN(8); {
+			case c < 3:
+				m[i]--
+			case c == 3 && pAbove != 0 && rng.IntN(4) == 0:
+				m[i]++
+			case c == 4:
+				m[i] = byte(rng.IntN(int(m[i]) + 1))
+			case c == 5 && pAbove == 3 && rng.IntN(6) == 0:
+				m[i] = byte(rng.IntN(256))
+			}
+		}
+		valCase(r, base, &validate.Options{TdQuoteBodyOptions: validate.TdQuoteBodyOptions{MinimumTeeTcbSvn: m}}, onlyCrash, "svn:teevec")
+	}
 	for _, v := range []uint16{0, 1, 260, 262, 65535} {
 		valCase(r, base, &validate.Options{HeaderOptions: validate.HeaderOptions{MinimumQeSvn: v}}, onlyCrash, "svn:qe")
 		valCase(r, base, &validate.Options{HeaderOptions: validate.HeaderOptions{MinimumPceSvn: v}}, onlyCrash, "svn:pce")
@@ -690,6 +726,73 @@ func c14(r *hx.Run) {
 				convCase(r, &ccpb.Policy{TdQuoteBodyPolicy: &ccpb.TDQuoteBodyPolicy{AnyMrTd: l}}, quotes[:6], "anymrtd")
 			}
 		}
+	}
+	// every composition of a 4-entry rtmrs list and of any_mr_td lists up to length 3 out of {empty, right, other content, short, long}:
+	// a wrong-sized entry must fail the conversion wherever it stands relative to empty entries
+	entry := func(kind int, right []byte) []byte {
+		switch kind {
+		case 0:
+			return nil
+		case 1:
+			return append([]byte{}, right...)
+		case 2:
+			e := append([]byte{}, right...)
+			e[7] ^= 0x10
+			return e
+		case 3:
+			return append([]byte{}, right[:47]...)
+		}
+		return append(append([]byte{}, right...), 9)
+	}
+	for c := 0; c < 625; c++ {
+		var l [][]byte
+		for i, k := 0, c; i < 4; i, k = i+1, k/5 {
+			l = append(l, entry(k%5, t0.Rtmrs[i]))
+		}
+		convCase(r, &ccpb.Policy{TdQuoteBodyPolicy: &ccpb.TDQuoteBodyPolicy{Rtmrs: l}}, quotes[:1], "rtmrs-grid")
+	}
+	for n := 1; n <= 3; n++ {
+		tot := 1
+		for i := 0; i < n; i++ {
+			tot *= 5
+		}
+		for c := 0; c < tot; c++ {
+			var l [][]byte
+			for i, k := 0, c; i < n; i, k = i+1, k/5 {
+				l = append(l, entry(k%5, t0.MrTd))
+			}
+			convCase(r, &ccpb.Policy{TdQuoteBodyPolicy: &ccpb.TDQuoteBodyPolicy{AnyMrTd: l}}, quotes[:1], "anymrtd-grid")
+		}
+	}
+	// one sub-policy absent (nil message), the other carrying one field in each of its variants
+	for _, f := range fields {
+		for v := 2; v < 7; v++ {
+			p := &ccpb.Policy{HeaderPolicy: &ccpb.HeaderPolicy{}, TdQuoteBodyPolicy: &ccpb.TDQuoteBodyPolicy{}}
+			cur := *f.ptr(full())
+			val := cur
+			switch v {
+			case 3:
+				val = append([]byte{}, cur...)
+				val[len(val)-1] ^= 0x40
+			case 4:
+				val = cur[:f.size-1]
+			case 5:
+				val = append(append([]byte{}, cur...), 7)
+			case 6:
+				val = []byte{0}
+			}
+			*f.ptr(p) = val
+			if f.name == "qe_vendor_id" {
+				p.TdQuoteBodyPolicy = nil
+			} else {
+				p.HeaderPolicy = nil
+			}
+			convCase(r, p, quotes[:2], "other-sub-nil:"+f.name)
+		}
+	}
+	for _, v := range []uint32{261, 65535, 65536, 70000} {
+		convCase(r, &ccpb.Policy{HeaderPolicy: &ccpb.HeaderPolicy{MinimumQeSvn: v}}, quotes[:2], "other-sub-nil:qesvn")
+		convCase(r, &ccpb.Policy{HeaderPolicy: &ccpb.HeaderPolicy{MinimumPceSvn: v}}, quotes[:2], "other-sub-nil:pcesvn")
 	}
 	// random policies
 	n := 150
